@@ -81,6 +81,7 @@ const (
 // Script tells the scripted handler what to do for one request.
 type Script struct {
 	Parse    bool            `json:"parse"`    // call Parse() and record the projected result
+	Reparse  bool            `json:"reparse"`  // call Parse() a second time on the same request (operations without a body): the step is stateless in the model, so the second outcome is judged like the first
 	Resp     string          `json:"resp"`     // name of the response type to return ("" = first implementer)
 	Code     int             `json:"code"`     // status for default responses
 	Fill     json.RawMessage `json:"fill"`     // abstract value to build the response from (see value.go), optional
@@ -335,6 +336,9 @@ func handle(reg Registry, rec *Recorder, op OpInfo, ctxV, reqV reflect.Value) re
 	}
 	if cc.script.Parse {
 		recordParse(rec, cc.id, reqV, cc.script.ReadBody)
+		if cc.script.Reparse {
+			recordParse(rec, cc.id, reqV, cc.script.ReadBody)
+		}
 	}
 	return buildResponse(reg, rec, op, cc)
 }
